@@ -768,6 +768,82 @@ func ruleStreamLength(c *core.Ctx) {
 		// uses as Discard argument etc. flow through l; also direct uses
 		o.Require(n >= 1, "no use of the declared length found")
 	})
+	c.Check(rule, "pdf.(*scanner).ReadStreamData/declared-domain", "every non-negative /Length reaches the endstream verification: the value read from the dictionary is kept for all n >= 0 (0 is the length of an empty stream), and the verification runs for every kept value", func(o *core.Ob) {
+		// n, err := s.getInt(lengthObj)
+		var nObj, dObj types.Object
+		var nID *ast.Ident
+		for _, v := range g.Vs {
+			as, ok := v.AST.(*ast.AssignStmt)
+			if !ok || len(as.Lhs) != 2 || len(as.Rhs) != 1 {
+				continue
+			}
+			call, ok := ast.Unparen(as.Rhs[0]).(*ast.CallExpr)
+			if !ok {
+				continue
+			}
+			if _, name, ok := selName(call.Fun); !ok || name != "getInt" {
+				continue
+			}
+			if id, ok := as.Lhs[0].(*ast.Ident); ok && id.Name != "_" {
+				nObj, nID = info.ObjectOf(id), id
+				o.At(fn.Site(as, "the declared length is read"))
+			}
+		}
+		probes := callVertices(g, "pdf.endstreamAt")
+		if !o.Shape(nObj != nil && len(probes) == 1 && len(probes[0].Call.Args) == 2, "the read of /Length (getInt) and the single endstreamAt probe were not found") {
+			return
+		}
+		zero := &ast.BasicLit{Kind: token.INT, Value: "0"}
+		mentions := func(a core.Atom, obj types.Object) bool {
+			return core.Mentions(info, a.Expr, obj) || (a.Tag != nil && core.Mentions(info, a.Tag, obj))
+		}
+		check := func(at *core.V, obj types.Object, id *ast.Ident, what string) {
+			var atoms []core.Atom
+			for _, a := range g.DominatingAtoms(at) {
+				if mentions(a, obj) {
+					atoms = append(atoms, a)
+				}
+			}
+			if len(atoms) == 0 {
+				return
+			}
+			pre := core.Atom{Expr: &ast.BinaryExpr{X: id, Op: token.GEQ, Y: zero}}
+			holds, counter, decided := c.Prog.Implies(core.Formula{Fn: fn, Atoms: []core.Atom{pre}}, core.Formula{Fn: fn, Atoms: atoms})
+			if !decided {
+				o.Unrec("the condition on %s at %s was not decided", id.Name, c.Prog.Pos(at.AST.Pos()))
+				return
+			}
+			if !holds {
+				o.FailAt(fn.Site(at.AST, ""), "%s: a non-negative length is excluded here (%s)", what, counter)
+			}
+		}
+		// the probe uses n directly, or a variable that holds a copy of n
+		arg := probes[0].Call.Args[1]
+		if core.Mentions(info, arg, nObj) {
+			check(probes[0].V, nObj, nID, "the endstream verification")
+			return
+		}
+		var dID *ast.Ident
+		for _, v := range g.Vs {
+			as, ok := v.AST.(*ast.AssignStmt)
+			if !ok || len(as.Lhs) != len(as.Rhs) {
+				continue
+			}
+			for i, r := range as.Rhs {
+				id, isID := as.Lhs[i].(*ast.Ident)
+				if !isID || !core.Mentions(info, r, nObj) || !core.Mentions(info, arg, info.ObjectOf(id)) {
+					continue
+				}
+				dObj, dID = info.ObjectOf(id), id
+				o.At(fn.Site(as, "the declared length is kept"))
+				check(v, nObj, nID, "keeping the declared length")
+			}
+		}
+		if !o.Shape(dObj != nil, "the variable that carries the declared length to endstreamAt was not found") {
+			return
+		}
+		check(probes[0].V, dObj, dID, "the endstream verification")
+	})
 	c.Check(rule, "pdf.(*scanner).ReadStreamData/recover", "when /Length is unusable the extent is recovered by searching EOL+endstream and the EOL is not part of the data", func(o *core.Ob) {
 		find := callVerticesSuffix(g, ".Find")
 		if len(find) != 1 {
